@@ -3,6 +3,7 @@ package checks
 import (
 	"context"
 	"fmt"
+	"math"
 	"os"
 	"os/exec"
 	"reflect"
@@ -26,9 +27,9 @@ var c08Hist *eng.Kind[PureCase]
 
 func init() {
 	c := eng.Register(&eng.Check{
-		ID:    "C08",
-		Title: "Evaluation is a pure function of formula text and data",
-		Rule: "a pool of formulas with data that together touch every node type, operator and builtin (except the clock functions) plus malformed texts; operations per entry: parse, evaluate in a fresh runner, analyse fields; every ordered pair of operations and every triple / quadruple over sub-pools is run as one history without state merging; every observation (canonical tree dump with positions, ids and parents; exact value or error text; field set) must equal the observation of the same operation executed alone in a pristine child process, and the dump of a shared tree must be identical before and after every evaluation / analysis; distinct = distinct observations",
+		ID:          "C08",
+		Title:       "Evaluation is a pure function of formula text and data",
+		Rule:        "a pool of formulas with data that together touch every node type, operator and builtin (except the clock functions) plus malformed texts; operations per entry: parse, evaluate in a fresh runner, analyse fields; every ordered pair of operations and every triple / quadruple over sub-pools is run as one history without state merging; every observation (canonical tree dump with positions, ids and parents; exact value or error text; field set) must equal the observation of the same operation executed alone in a pristine child process, and the dump of a shared tree must be identical before and after every evaluation / analysis; distinct = distinct observations",
 		TrustedBase: []string{"tree dump through the public Node API in checks/c08.go", "pristine baselines computed by one child process per operation"},
 		Assumptions: []string{"workers run under TZ=UTC", "now and toDay are excluded (the only documented exceptions)"},
 		Run:         runC08,
@@ -39,8 +40,21 @@ func init() {
 }
 
 type poolEntry struct {
-	src  string
-	data func() map[string]interface{}
+	src    string
+	data   func() map[string]interface{} // nil: malformed text, only parsed
+	noData bool                          // evaluate with a runner that never got a data map
+}
+
+// variant data maps: the same formula text over data that differs only in one entry (caches
+// keyed by text, by value or by name would confuse them)
+func c08With(kv ...interface{}) func() map[string]interface{} {
+	return func() map[string]interface{} {
+		m := c08Data()
+		for i := 0; i+1 < len(kv); i += 2 {
+			m[kv[i].(string)] = kv[i+1]
+		}
+		return m
+	}
 }
 
 type pStruct struct {
@@ -81,10 +95,31 @@ var c08Pool = func() []poolEntry {
 	}
 	var pool []poolEntry
 	for _, s := range srcs {
-		pool = append(pool, poolEntry{s, c08Data})
+		pool = append(pool, poolEntry{src: s, data: c08Data})
+	}
+	variants := []struct {
+		src string
+		kvs [][]interface{}
+	}{
+		{"toString(q) + '|' + toString(1/q) + '|' + toString(q * -1)", [][]interface{}{{"q", 0.0}, {"q", math.Copysign(0, -1)}, {"q", 0}, {"q", float32(0)}, {"q", "0"}}},
+		{"[x, x + 1, toString(x), typeof x, x == 1, x === 1]", [][]interface{}{{"x", 1}, {"x", 1.0}, {"x", "1"}, {"x", int64(1) << 60}, {"x", 1.5}, {"x", true}, {"x", int32(1)}}},
+		{"regexp(s, pat)", [][]interface{}{{"pat", "^a"}, {"pat", "c$"}, {"pat", "^b"}, {"pat", "^a", "s", "bca"}}},
+		{"timeFormat(useTimezone(t, zn), lay)", [][]interface{}{{"zn", "UTC", "lay", "15:04"}, {"zn", "Asia/Shanghai", "lay", "15:04"}, {"zn", "America/New_York", "lay", "15:04"}, {"zn", "UTC", "lay", "2006-01-02"}}},
+		{"f(1, 'x')", [][]interface{}{{"f", func(a, b interface{}) (string, error) { return "two-any", nil }}, {"f", func(xs ...interface{}) (int, error) { return len(xs), nil }}, {"f", func(ctx context.Context, n float64, s string) (string, error) { return s, nil }}}},
+		{"p.age + len(p.name.first)", [][]interface{}{{"p", map[string]interface{}{"age": 1.0, "name": map[string]interface{}{"first": "Bo"}}}, {"p", map[string]interface{}{"age": int64(7), "name": map[string]interface{}{"first": ""}}}}},
+		{"max(a, b, y) + min(a, b, y) + abs(y) + round(b) + toInt(y)", [][]interface{}{{"y", 9.5}, {"y", -9.5, "b", 0.5}, {"a", 100}}},
+		{"lpad(s, 'x', c) + left(s, a) + mid(s, a, c)", [][]interface{}{{"s", "abcdefgh"}, {"s", "中文字符", "c", 6}, {"a", 0, "c", 0}}},
+	}
+	for _, v := range variants {
+		for _, kv := range v.kvs {
+			pool = append(pool, poolEntry{src: v.src, data: c08With(kv...)})
+		}
+	}
+	for _, s := range []string{"$v = 1, $v", "[$v, $q, $m, $k]", "$nv ?? 'unset'", "$v = a + 1, $v * 2", "$m = 2, $k = 3, [$m, $k]", "this", "[a, s, n]"} {
+		pool = append(pool, poolEntry{src: s, data: c08Data, noData: true})
 	}
 	for _, s := range []string{"1 +", "(a", "[1,", "'abc", "a ? b", "1 2", "#", "a..b", "f(,)", "1 +\r\n", "a\n.b", "0x1F"} {
-		pool = append(pool, poolEntry{s, nil})
+		pool = append(pool, poolEntry{src: s})
 	}
 	return pool
 }()
@@ -271,7 +306,9 @@ func observe(entry, kind int, shared map[int]*formula.SourceCode) (obs string, f
 		before := dumpTree(src)
 		if kind == 1 {
 			r := formula.NewRunner()
-			r.SetThis(e.data())
+			if !e.noData {
+				r.SetThis(e.data())
+			}
 			o := safeResolve(r, bg, src.Expression)
 			switch {
 			case o.panicked:
